@@ -100,6 +100,23 @@ def run(call):
             net = gross - s.calc(gross)
             if not close(inv.calc(net), gross):
                 bad.append(f"inverse does not map net back to gross: {inv.calc(net).tolist()} vs {gross.tolist()}")
+        elif op == "combine_tax_scales":
+            # a parameter group holding several marginal-rate scales (and something that is not one): the combined scale taxes every base
+            # by the sum of their taxes
+            from openfisca_core.parameters import ParameterNode
+            from openfisca_core.taxscales import helpers as H
+            def scale_data(ts, rs):
+                return {"brackets": [{"threshold": {"2000-01-01": {"value": t}}, "rate": {"2000-01-01": {"value": r}}} for t, r in zip(ts, rs)]}
+            others = [([0.0, 5.0, 15.0], [0.05, 0.1, 0.3]), ([2.0, 30.0], [0.2, 0.0])]
+            node = ParameterNode("taxes", data={"a": scale_data(s.thresholds, s.rates), "x": {"values": {"2000-01-01": {"value": 3}}},
+                                                "b": scale_data(*others[0]), "c": scale_data(*others[1])})
+            view = node.get_at_instant("2020-01-01")
+            combined = H.combine_tax_scales(view)
+            scales = [s] + [mk(*o) for o in others]
+            gb = numpy.array(grid(*scales))
+            want = sum(sc.calc(gb) for sc in scales)
+            if not close(combined.calc(gb), want):
+                bad.append(f"the combined scale taxes {combined.calc(gb).tolist()}, the member scales together {want.tolist()} on {gb.tolist()}")
         elif op == "inverse_history":
             # inverse(), an in-place change of the scale (and of a copy of it), inverse() again: always the inverse of the scale as it is
             s.inverse()
